@@ -17,7 +17,16 @@ from fsim.worlds.estimator import MinimizeSeam, config_dict
 
 GRAPH = {"Start": {"symbolic_model": "Symbolic_Model"}, "Symbolic_Model": {"fit_model": "Fit_Model"}, "Fit_Model": {}}
 STATES = ["Start", "Symbolic_Model", "Fit_Model"]
-BAD_TARGETS = ["Fit_Model", 2, None, "StateId.Start"]
+import enum
+
+
+class PipelineStage(enum.Enum):  # a foreign enum whose member names collide with the workflow's state ids
+    Start = "start"
+    Symbolic_Model = "symbolic"
+    Fit_Model = "fit"
+
+
+BAD_TARGETS = ["Fit_Model", 2, None, "StateId.Start", PipelineStage.Fit_Model, PipelineStage.Start, True]
 HYPER = {"innovation_filtering": [None, None, 1.0, 3.0, 7.0, 5.0], "max_dt_sec": [0.05, 0.1, 0.5], "common_subexpression_elimination": [False]}
 DEFAULTS = {"common_subexpression_elimination": "True", "extra_validation": "False", "max_dt_sec": "0.1", "innovation_filtering": "5.0"}
 
@@ -71,7 +80,13 @@ def generate(rng, prop, tier):
                     grid[k] = sorted(set(rng.sample(HYPER[k], min(len(HYPER[k]), rng.choice([1, 1, 2])))), key=repr)
                 if rng.random() < 0.25:
                     grid["innovation_filtering"] = [None]  # filtering pinned off: a single-valued dimension whose value is None
-                ops.append({"op": "fit_model", "from": rng.choice(sms), "data": "ok", "grid": grid, "minimize": rng.choice(["early_stop:2", "early_stop:1", "early_stop:3", "real"]), "faults": []})
+                extra = {}
+                if d["calibration"] and rng.random() < 0.4:
+                    # a calibration grid: the second entry shifts every calibration value
+                    extra["calibration_shift"] = rng.choice([0.5, -1.25, 2.0])
+                if d["control"] and rng.random() < 0.3:
+                    extra["process_noise_factor"] = rng.choice([0.25, 4.0])
+                ops.append({"op": "fit_model", "from": rng.choice(sms), "data": "ok", "grid": grid, "extra_grid": extra, "minimize": rng.choice(["early_stop:2", "early_stop:1", "early_stop:3", "real"]), "faults": []})
                 pool.append("Fit_Model")
                 fits += 1
         elif r < 0.7:
@@ -153,6 +168,13 @@ def execute(schedule) -> Result:
                 X = mats[op["data"]]
                 grid = {"process_noise": [b["process_noise"]], "sensor_models": [b["sensor_models"]], "sensor_noises": [b["sensor_noises"]], "calibration_map": [b["calibration_map"]]}
                 grid.update({k: list(v) for k, v in op["grid"].items()})
+                eg = op.get("extra_grid") or {}
+                if "calibration_shift" in eg:
+                    second = {k_: v + eg["calibration_shift"] for k_, v in b["calibration_map"].items()}
+                    grid["calibration_map"] = [b["calibration_map"], second] if i % 2 else [second, b["calibration_map"]]
+                if "process_noise_factor" in eg:
+                    second = {k_: v * eg["process_noise_factor"] for k_, v in b["process_noise"].items()}
+                    grid["process_noise"] = [b["process_noise"], second] if i % 2 == 0 else [second, b["process_noise"]]
                 grid.setdefault("common_subexpression_elimination", [False])
                 seam.mode = op["minimize"]
                 n_before = len(pool)
@@ -173,8 +195,12 @@ def execute(schedule) -> Result:
                         if outcome == "ok":
                             pool.append((new, path + ["Fit_Model"], grid))
                 elif outcome == "ok":
-                    pool.append((new, path + ["Fit_Model"], {k: v for k, v in op["grid"].items()}))
-                    _check_export(res, i, new, op["grid"])
+                    g_rec = {k: v for k, v in op["grid"].items()}
+                    if d["calibration"]:
+                        names_c = sorted(d["calibration"])
+                        g_rec["calibration_map_values"] = [[float({str(k_): v for k_, v in m_.items()}[n_]) for n_ in names_c] for m_ in grid["calibration_map"]]
+                    pool.append((new, path + ["Fit_Model"], g_rec))
+                    _check_export(res, i, new, g_rec)
                 else:
                     # a failing fit inside the transition is tolerated (minimisation may fail); it must not create a state
                     res.stats["probe:fit_model_failed_inside"] += 1
@@ -243,6 +269,26 @@ def _check_export(res, i, state, grid):
             res.add("C18", "export_default", f"C18:py:export_default:{k}", i, f"{k} not in the grid keeps its default {DEFAULTS[k]}", got[k])
     if got != est_cfg:
         res.add("C18", "export_vs_estimator", "C18:py:export_vs_estimator", i, f"exported filter carries the selected estimator's configuration {est_cfg}", f"{got}")
+    # ... and exactly the selected calibration and noise parameters (built by hand from the selected estimator's parameters)
+    try:
+        from formak import python as _py
+
+        e = state.fit_estimator
+        with contextlib.redirect_stdout(io.StringIO()):
+            hand = _py.compile_ekf(e.symbolic_model, e.process_noise, e.sensor_models, e.sensor_noises, e.calibration_map, config=e.config)
+        if f.calibration_vector.tobytes() != hand.calibration_vector.tobytes():
+            res.add("C18", "export_calibration", "C18:py:export_calibration", i, f"exported filter carries the selected calibration {hand.calibration_vector.T.tolist()}", f"{f.calibration_vector.T.tolist()}")
+        if f.process_noise.tobytes() != hand.process_noise.tobytes():
+            res.add("C18", "export_process_noise", "C18:py:export_process_noise", i, f"exported filter carries the selected process noise {hand.process_noise.tolist()}", f"{f.process_noise.tolist()}")
+        for k_ in sorted(hand.sensor_noises):
+            if f.sensor_noises[k_].data.tobytes() != hand.sensor_noises[k_].data.tobytes():
+                res.add("C18", "export_sensor_noise", "C18:py:export_sensor_noise", i, f"exported filter carries the selected noise of sensor {k_}", f"{f.sensor_noises[k_].data.T.tolist()}")
+    except AttributeError:
+        pass
+    # the selected calibration / process noise must come from the grid
+    gcm = grid.get("calibration_map_values")
+    if gcm is not None and [float(v) for v in f.calibration_vector[:, 0]] not in gcm:
+        res.add("C18", "export_not_in_grid", "C18:py:export_not_in_grid:calibration_map", i, f"exported calibration is one of the grid entries {gcm}", f"{f.calibration_vector.T.tolist()}")
     res.stats["probe:exports_checked"] += 1
 
 
